@@ -26,4 +26,17 @@ def run(env: Env) -> Outcome:
                 "non-trivial = more than 2 ticks; distinct by (spec, schedule)")
     suite.direct_corr(env, out, env.budget(1500, 30000))
     suite.live_runs(env, out, env.budget(250, 5000), [monitors.mon_c11], extra_specs=suite.load_corpus("C11"))
+
+    def many_snapshots(spec: dict, rng) -> dict:
+        # several ctx.to_dict() calls on one live handler, at different quiet points (work in flight in between)
+        for st in spec["steps"]:
+            if (st.get("retry") or {}).get("kind") == "delay":
+                # elapsed-time policies are outside the stated guard (replay runs on a later clock)
+                st["retry"] = {"kind": "attempts", "n": 3, "wait": st["retry"].get("wait", 0)}
+        for _ in range(rng.randint(2, 4)):
+            spec.setdefault("externals", []).append({"op": "snapshot", "after_quiet": rng.randint(0, 6)})
+        return spec
+
+    suite.live_runs(env, out, env.budget(120, 2400), [monitors.mon_c11], gen_kwargs={"family": "fanin"}, mutate_spec=many_snapshots)
+    suite.live_runs(env, out, env.budget(80, 1600), [monitors.mon_c11], gen_kwargs={"family": "retry"}, mutate_spec=many_snapshots)
     return out
